@@ -106,6 +106,12 @@ def _first_param(fn_node: ast.AST) -> str:
     return args[1].arg
 
 
+def _async_list_names():  # type: ignore[no-untyped-def]
+    from sa import twins
+
+    return twins.ALIST_NAMES | {"_alist"}
+
+
 def r1_2(ctx: Ctx) -> RuleResult:
     rr = RuleResult("R1.2", "bracketed list concatenates per input node", floor=2)
     cls = ctx.repo.require_class("ListSelector")
@@ -146,7 +152,7 @@ def r1_2(ctx: Ctx) -> RuleResult:
                 and len(c.args) == 1
             ):
                 arg = c.args[0]
-                if isinstance(arg, ast.Call) and callee_name(arg) == "_alist" and arg.args:
+                if isinstance(arg, ast.Call) and callee_name(arg) in _async_list_names() and arg.args:
                     arg = arg.args[0]
                 if (
                     isinstance(arg, (ast.List, ast.Tuple))
